@@ -39,8 +39,15 @@ fn confined_cmd(p: &Prog, r: &RawCmd) -> Cmd {
 }
 
 fn sweep_spec(orig_sel: u8) -> ProgSpec {
+    // for the straddling program: `.break` before many statements, so that predefined
+    // breakpoints exist on both sides of 0xFE00
+    let main = if orig_sel == 200 {
+        (0..24).flat_map(|i| vec![proggen::PgOp::Break, proggen::PgOp::Alu(1, (i % 4) as u8, 0, 0, 1)]).collect()
+    } else {
+        vec![]
+    };
     ProgSpec {
-        main: vec![],
+        main,
         subs: vec![],
         sub_call: vec![false; 3],
         ending: proggen::Ending::Halt,
@@ -73,7 +80,7 @@ pub fn judge_case(c: &Case) -> Obs {
                         let l = Loc::Abs(a, style);
                         v.push(Cmd::Move(PLoc::Mem(l.clone()), a ^ 0x5A5A));
                         v.push(Cmd::BreakAdd(l.clone()));
-                        if k % 2 == 0 {
+                        if k % 2 == 0 || a >= 0xFDF0 {
                             v.push(Cmd::BreakRemove(l.clone()));
                         }
                         v.push(Cmd::Goto(l));
@@ -208,7 +215,7 @@ impl Prop for C13 {
     }
     fn rule(&self) -> &'static str {
         "Histories of 1-11 commands over {move <loc|reg> <value>, goto <loc>, break add/remove <loc>, print, registers, assembly, break list} after 0-29 executed instructions, with <loc> an absolute address in six radix spellings, label+-offset or ^offset (offsets over the whole signed 16-bit range, sums overflowing 16 bits), \
-         targets drawn from {0, origin-1, origin, origin+1, 0x7FFF, 0x8000, 0xFDFE..0xFE01, 0xFFFE, 0xFFFF, program end} ∪ uniform, origins on both sides of 0x8000; plus an absolute-address sweep (quick: a stride sample and all edges; thorough: all 65,536 addresses x move / break add / break remove / goto). \
+         targets drawn from {0, origin-1, origin, origin+1, 0x7FFF, 0x8000, 0xFDFE..0xFE01, 0xFFFE, 0xFFFF, program end} ∪ uniform, origins on both sides of 0x8000; plus an absolute-address sweep (also over a program at 0xFDF8 that straddles the end of user space and has `.break` directives beyond 0xFE00) (quick: a stride sample and all edges; thorough: all 65,536 addresses x move / break add / break remove / goto). \
          Oracle: RefDbg — target outside [origin, 0xFE00) => `OutOfBounds::Address` is reported and nothing changes; inside => exactly the named word / register / PC / breakpoint changes to exactly the given value; read-only commands change nothing: registers/PC/CC after every command, the breakpoint list and the full 65,536-word snapshot at the end. \
          Non-trivial: the target is within 1 of a boundary, >= 0x8000, or produced by label / PC-offset arithmetic. Distinct = hash(source, script)."
     }
@@ -222,11 +229,14 @@ impl Prop for C13 {
         let chunk = 64u32;
         let step: u32 = ctx.tier.pick(16, 1); // quick: every 16th chunk + the chunks holding the edges
         let mut n = 0u64;
-        for orig_sel in [1u8, 4] {
+        for orig_sel in [1u8, 4, 200] {
             let o = proggen::origin_for(&sweep_spec(orig_sel)) as u32;
             for ci in 0..(0x10000 / chunk) {
                 let start = ci * chunk;
-                let holds_edge = [0u32, o, 0x7FFF, 0x8000, 0xFDFF, 0xFE00, 0xFFFF].iter().any(|e| (start..start + chunk + 1).contains(e) || start == e + 1);
+                let holds_edge = [0u32, o, 0x7FFF, 0x8000, 0xFDFF, 0xFE00, 0xFE30, 0xFFFF].iter().any(|e| (start..start + chunk + 1).contains(e) || start == e + 1);
+                if orig_sel == 200 && !holds_edge {
+                    continue; // the straddling program is only swept around its own addresses
+                }
                 if ci % step != 0 && !holds_edge {
                     continue;
                 }
